@@ -448,7 +448,11 @@ func judgeC17(c *Ctx, sc *Scenario) *Violation {
 			}
 		}
 	}
-	for i, gmp := range []int{1, 16} {
+	raceGmps := []int{1, 16}
+	if os.Getenv("VERIF_C17_ENGINE_A_ONLY") != "" { // debugging aid: judge the in-process variants alone
+		raceGmps = nil
+	}
+	for i, gmp := range raceGmps {
 		b := *sc
 		jitter(&b, i)
 		res := RunB(&b, site, BOpts{Race: true, GOMAXPROCS: gmp})
@@ -458,7 +462,7 @@ func judgeC17(c *Ctx, sc *Scenario) *Violation {
 			return v
 		}
 	}
-	if os.Getenv("VERIF_GITSIZER_BIN") != "" {
+	if os.Getenv("VERIF_GITSIZER_BIN") != "" && os.Getenv("VERIF_C17_ENGINE_A_ONLY") == "" {
 		for i, gmp := range []int{2, 3, 4, 5, 8, 16, 2, 3, 4, 5, 2, 4} {
 			b := *sc
 			jitter(&b, i)
@@ -577,9 +581,9 @@ func checkC17(c *Ctx, rt *rapid.T) {
 
 func init() {
 	compB := map[string]string{
-		"git-sizer":                    "real binary built from the current /repo tree with the default toolchain and the shipped go.mod (engine B; -race build for C17)",
-		"git":                          "real git 2.39.5 behind /verif/bin/gitshim (records, re-chunks, delays, injects failures)",
-		"clock, pipes, OS scheduling":  "real (sampled, not decided): GOMAXPROCS 1/2/4/16 and proxy jitter perturb the interleaving",
+		"git-sizer":                      "real binary built from the current /repo tree with the default toolchain and the shipped go.mod (engine B; -race build for C17)",
+		"git":                            "real git 2.39.5 behind /verif/bin/gitshim (records, re-chunks, delays, injects failures)",
+		"clock, pipes, OS scheduling":    "real (sampled, not decided): GOMAXPROCS 1/2/4/16 and proxy jitter perturb the interleaving",
 		"in-process variants (C17 only)": "engine A built with -race: same delivery order under different chunking, delays, pipe capacities and flush policies",
 	}
 	Register(&Prop{ID: "C13", Check: checkC13, Replay: judgeC13, Components: compB,
